@@ -34,7 +34,18 @@ const LANGS15: &[(&str, &str, &str)] = &[
   ("Python", "py", "foo(1)\n"),
   ("Rust", "rs", "fn main() { foo(1); }\n"),
   ("Go", "go", "package main\n\nfunc main() {\n\tfoo(1)\n}\n"),
+  // a host document with two embedded documents (css, js): the finding is in the host document,
+  // the embedded ones hold nothing the JavaScript rules match
+  ("Html", "html", "<p title=\"foo\">x</p>\n<style>\n.a { color: red }\n</style>\n<script>\nbar(2)\n</script>\n"),
 ];
+
+fn rule_body(lang: &str) -> &'static str {
+  if lang == "Html" {
+    "rule:\n  kind: attribute_value\n"
+  } else {
+    "rule:\n  pattern: foo($A)\n"
+  }
+}
 
 const DIRS: &[&str] = &["", "src/", "src/deep/", "lib/", "lib/v2/", "test/"];
 const NAMES: &[&str] = &["a", "b", "index", "main", "util"];
@@ -42,7 +53,7 @@ const NAMES: &[&str] = &["a", "b", "index", "main", "util"];
 const FOREIGN: &[&str] = &["vue", "jsy", "pyx", "txt", "md"];
 
 const GLOBS: &[&str] = &[
-  "**/*.js", "**/*.ts", "**/*.py", "**/*.rs", "**/*.go", "src/**", "lib/**", "test/**", "src/**/*.js", "lib/**/*.py", "src/deep/**", "src/a.js", "lib/b.ts", "**/index.*", "**/main.*",
+  "**/*.js", "**/*.ts", "**/*.py", "**/*.rs", "**/*.go", "**/*.html", "src/**", "lib/**", "test/**", "src/**/*.js", "lib/**/*.py", "src/deep/**", "src/a.js", "lib/b.ts", "**/index.*", "**/main.*",
   "*.{js,ts}", "**/*.{py,rs}", "src/[ab]*", "**/[!a]*.go", "src/*.js", "*.py", "lib/*", "**/util.?s", "**/v2/**", "src/deep/a.js", "*/a.*",
 ];
 
@@ -59,8 +70,8 @@ pub struct Choice {
 pub fn strategy() -> BoxedStrategy<Choice> {
   let globs = || prop::collection::vec(0u8..GLOBS.len() as u8, 1..=2);
   (
-    prop::collection::vec((0u8..6, 0u8..5, 0u8..10), 3..16),
-    prop::collection::vec((0u8..5, 0u8..7, prop::option::weighted(0.5, globs()), prop::option::weighted(0.35, globs())), 1..7),
+    prop::collection::vec((0u8..6, 0u8..5, 0u8..11), 3..16),
+    prop::collection::vec((0u8..6, 0u8..7, prop::option::weighted(0.5, globs()), prop::option::weighted(0.35, globs())), 1..7),
     prop::collection::vec((0u8..5, 0u8..3), 0..=2),
     prop::option::weighted(0.3, 0u8..5),
     prop::collection::vec((0u8..5, 0u8..7), 0..=2),
@@ -225,7 +236,7 @@ pub fn check(case: &Case, st: &mut Stats) -> CheckResult {
   }
   dir.write("sgconfig.yml", cfg.as_bytes());
   for (i, r) in case.rules.iter().enumerate() {
-    let mut y = format!("id: {}\nlanguage: {}\nmessage: found\nrule:\n  pattern: foo($A)\n", r.id, r.lang);
+    let mut y = format!("id: {}\nlanguage: {}\nmessage: found\n{}", r.id, r.lang, rule_body(&r.lang));
     if let Some(s) = &r.severity {
       y.push_str(&format!("severity: {s}\n"));
     }
@@ -379,7 +390,7 @@ pub fn run(cfg: &RunCfg) -> i32 {
     return crate::replay_main::<Case>(cfg, path, check);
   }
   crate::replay_known::<Case>(&mut report, &known, check);
-  let total = cfg.budget(1_000, 15_000);
+  let total = cfg.budget(4_000, 40_000);
   let o = drive(cfg, "projects", total, &known, strategy, interpret, check);
   report.absorb("projects", o);
   cli::cleanup_work_root();
